@@ -51,6 +51,23 @@ def h_online(f, N, ext=True, kind='combined', itext=None, period=None):
     return body
 
 
+def h_online_obj(f, N):
+    """object-valued signal: x, y are fields of one variable of a user type; online update i == offline sample i == rho"""
+    f = T(f)
+    vs = sorted(variables(f))
+
+    def body(env):
+        A = env.A
+        son, mk = dt.obj_spec('combined', f)
+        soff, _ = dt.obj_spec('offline', f)
+        w = dt.trace(env, vs, N, ext=False)
+        got = [son.update(i, [('m', mk(w, i))]) for i in range(N)]
+        env.observe('online', got)
+        off = [p[1] for p in soff.evaluate({'time': list(range(N)), 'm': [mk(w, i) for i in range(N)]})]
+        return dt.eq_list(A, 'offline', got, off) + dt.eq_list(A, 'rho', got, rho(A, f, w, N))
+    return body
+
+
 def h_unit_window(op, begin, end):
     """one update() of a bounded operation from an ARBITRARY buffer state (inductive step)"""
     def body(env):
@@ -224,6 +241,11 @@ def obligations(tier, rng):
     for itext, f in near:
         for N in ([7] if quick else [5, 9]):
             out.append(ob('C02', 'online', 'Fnear/%s/N=%d' % (itext, N), f=f, N=N, ext=False, itext=itext, period=[500, 'ms']))
+    # object-valued signals: sub-formulas that are identical except for the FIELD they read
+    C0 = ('const', 0.0)
+    for f in [('and', ('geq', X, C0), ('geq', Y, C0)), ('sub', ('abs', X), ('abs', Y)), ('or', ('prev', ('geq', Y, C0)), ('geq', X, C0)), ('since', ('geq', X, C0), ('geq', Y, C0)),
+              ('and', ('once_t', X, 0, 1), ('once_t', Y, 0, 1)), ('geq', X, Y), ('implies', ('rise', ('geq', X, C0)), ('once', ('geq', Y, C0)))]:
+        out.append(ob('C02', 'online_obj', 'object-fields/%s/N=4' % text(f), f=f, N=4))
     from .. import pool
     for i, g in enumerate(pool.PAST):
         for N in ([7] if quick else [4, 9]):
